@@ -28,6 +28,9 @@ func (r SatResult) String() string { return [...]string{"unsat", "sat", "unknown
 type Solver struct {
 	cmd     *exec.Cmd
 	in      io.WriteCloser
+	bw      *bufio.Writer
+	lib     *libZ3 // in-process back end (argv[0] == "lib")
+	pending []string // output lines of commands evaluated before the current sync
 	out     *bufio.Reader
 	defined map[int]bool
 	ufDecl  map[string]bool
@@ -48,6 +51,19 @@ func NewSolver(argv []string) (*Solver, error) {
 }
 
 func (s *Solver) start() error {
+	if s.argv[0] == "lib" {
+		s.lib = newLibZ3()
+		s.defined = map[int]bool{}
+		s.ufDecl = map[string]bool{}
+		s.send("(set-option :print-success false)")
+		s.send("(set-option :produce-models true)")
+		for _, a := range s.argv[1:] { // e.g. timeout=20000
+			if i := strings.Index(a, "="); i > 0 {
+				s.send("(set-option :" + a[:i] + " " + a[i+1:] + ")")
+			}
+		}
+		return nil
+	}
 	cmd := exec.Command(s.argv[0], s.argv[1:]...)
 	in, err := cmd.StdinPipe()
 	if err != nil {
@@ -62,6 +78,7 @@ func (s *Solver) start() error {
 		return err
 	}
 	s.cmd, s.in, s.out = cmd, in, bufio.NewReaderSize(out, 1<<16)
+	s.bw = bufio.NewWriterSize(in, 1<<16)
 	s.defined = map[int]bool{}
 	s.ufDecl = map[string]bool{}
 	s.send("(set-option :print-success false)")
@@ -70,6 +87,11 @@ func (s *Solver) start() error {
 }
 
 func (s *Solver) Close() {
+	if s.lib != nil {
+		s.lib.close()
+		s.lib = nil
+		return
+	}
 	if s.cmd != nil {
 		s.in.Close()
 		s.cmd.Process.Kill()
@@ -82,12 +104,22 @@ func (s *Solver) send(line string) {
 	if s.dump != nil {
 		io.WriteString(s.dump, line+"\n")
 	}
-	io.WriteString(s.in, line+"\n")
+	if s.lib != nil {
+		s.lib.buf.WriteString(line)
+		s.lib.buf.WriteByte('\n')
+		return
+	}
+	s.bw.WriteString(line)
+	s.bw.WriteByte('\n')
 }
 
 // sync sends an echo marker and returns all output lines before it.
 func (s *Solver) sync() []string {
+	if s.lib != nil {
+		return s.lib.eval()
+	}
 	s.send(`(echo "@@sync")`)
+	s.bw.Flush()
 	var lines []string
 	for {
 		l, err := s.out.ReadString('\n')
